@@ -90,15 +90,24 @@ def run(rep: Report, tier: str) -> None:
 					for nm in [x.id for x in ast.walk(n.value) if isinstance(x, ast.Name)]:
 						keys |= origin_of.get(nm, set())
 					origin_of[n.targets[0].id] = keys
+			# value sources: for a conditional expression only the branches produce the value (the test may consult other keys)
+			def value_keys(e: ast.AST) -> set[str]:
+				if isinstance(e, ast.IfExp):
+					return value_keys(e.body) | value_keys(e.orelse)
+				return subscripted_keys(e, 'data')
+			value_of: dict[str, set[str]] = {}
+			for n in ast.walk(body):
+				if isinstance(n, ast.Assign) and len(n.targets) == 1 and isinstance(n.targets[0], ast.Name):
+					keys = value_keys(n.value)
+					for nm in [x.id for x in ast.walk(n.value) if isinstance(x, ast.Name)]:
+						keys |= value_of.get(nm, set())
+					value_of[n.targets[0].id] = keys
 			for kw in opts[0].keywords:
-				src_keys = set()
+				src_keys = value_keys(kw.value)
 				for x in ast.walk(kw.value):
 					if isinstance(x, ast.Name):
-						src_keys |= origin_of.get(x.id, set())
-				src_keys |= subscripted_keys(kw.value, 'data')
-				# `via` legitimately also consults origin (None when equal)
-				main = src_keys - ({'origin'} if kw.arg == 'via' else set())
-				rw.check(main == {kw.arg}, f'read:Options.{kw.arg}', (SER, opts[0].lineno), f'Options({kw.arg}=...) is built from data keys {sorted(src_keys)}; expected data[{kw.arg!r}]')
+						src_keys |= value_of.get(x.id, set())
+				rw.check(src_keys == {kw.arg}, f'read:Options.{kw.arg}', (SER, opts[0].lineno), f'Options({kw.arg}=...) takes its value from data keys {sorted(src_keys)}; expected data[{kw.arg!r}]')
 			rw.check({k.arg for k in opts[0].keywords} == {'node', 'decl', 'origin', 'via'}, 'read:Options-fields', (SER, opts[0].lineno), f'Options is built with {[k.arg for k in opts[0].keywords]}')
 	if 'Symbol' in written and 'Symbol' in branches:
 		wd = written['Symbol'][1]
@@ -126,7 +135,14 @@ def run(rep: Report, tier: str) -> None:
 	splits = {const_str(n.args[0]) for n in ast.walk(da.node) if isinstance(n, ast.Call) and isinstance(n.func, ast.Attribute) and n.func.attr in ('split', 'count', 'join') and n.args and const_str(n.args[0]) is not None}
 	joins = {const_str(n.func.value) for n in ast.walk(da.node) if isinstance(n, ast.Call) and isinstance(n.func, ast.Attribute) and n.func.attr == 'join' and const_str(n.func.value) is not None}
 	ra.check(splits <= {'.'} and joins <= {'.'} and '.' in splits, 'reader-separator', da.where, f'_deserialize_attrs splits/joins with {splits | joins}; the writer uses "."')
-	ra.check("sorted(data_attrs.keys(), key=lambda key: key.count('.'))" in unparse(da.node), 'reader-depth-order', da.where, '_deserialize_attrs no longer processes paths shallow-to-deep (parents must exist before children are attached)')
+	# ordering of the paths: shallow-to-deep by separator count, never by comparing path strings ("10" < "2")
+	from vlib.anchoring import Taint, find_sites
+	t = Taint(da, lambda e: None, lambda fn, p: {'indexpath[]'} if p.arg == 'data_attrs' else None)
+	orders = [s_ for s_ in find_sites(da, t) if s_.kind == 'order' and s_.labels]
+	ra.check(bool(orders), 'reader-depth-order', da.where, '_deserialize_attrs no longer sorts the paths (parents must be rebuilt before children are attached)')
+	for s_ in orders:
+		depth_key = s_.arg is not None and ".count('.')" in unparse(s_.arg)
+		ra.check(s_.anchored and depth_key, f'reader-order:{s_.text[:60]}', (SER, s_.node.lineno), f'`{s_.text}` must order the index paths by depth only (separator count; the stable sort keeps the numeric sibling order); comparing the path strings puts "10" before "2" and permutes siblings', s_.text)
 	ra.check('int(index_key)' in unparse(da.node), 'reader-int-index', da.where, 'indices are no longer parsed with int(): "10" would sort/compare as text')
 	ra.check('db[data_attrs[path]]' in unparse(da.node), 'reader-lookup', da.where, 'attribute values are no longer looked up in db by the written type key')
 
